@@ -456,6 +456,9 @@ class Recfile(object):
             native_dtype = dataview.dtype.newbyteorder("=")
             dataview = dataview.astype(native_dtype, copy=False)
 
+        # the C++ code reads the rows from one contiguous buffer
+        dataview = numpy.ascontiguousarray(dataview)
+
         self.robj.Write(dataview)
 
         # update nrows to reflect the write
